@@ -473,7 +473,7 @@ pub fn panic_class(msg: &str) -> String {
             out.push(c);
         }
     }
-    let cut = out.find(": [").or_else(|| out.find(" for ")).or_else(|| out.find('(')).unwrap_or(out.len());
+    let cut = [out.find(": ["), out.find(" for "), out.find('('), out.find(" {")].into_iter().flatten().min().unwrap_or(out.len());
     let out: String = out[..cut].chars().take(70).collect();
     out.trim().replace(' ', "-").replace(['`', '\'', '"'], "")
 }
